@@ -402,7 +402,42 @@ fn preamble(stdarg: bool, stdbool: bool, complex_h: bool) -> String {
     s
 }
 
+/// Case 0 of every run: the witnesses of the known findings (DESIGN §7 row 5 first) next to
+/// functions the printer gets right.
+pub fn witness_case(id: usize) -> Case {
+    let p = |name: &str, ty: Ty, role: Role| Param { name: Some(name.to_owned()), ty, role };
+    let f = |name: &str, ret: Ty, rk: RetKind, params: Vec<Param>, variadic: bool, planted: Vec<&'static str>| Func {
+        name: name.to_owned(), linkage: Linkage::StaticInline, ret, ret_kind: rk, params, variadic, header: 0, runnable: true, planted,
+    };
+    let fnptr = |v: bool, ret: Ty, ps: Vec<(Option<String>, Ty)>| ptr(false, func(v, ret, ps));
+    let funcs = vec![
+        f("sum3", int("Int"), RetKind::Scalar, vec![p("p", ptr(false, array(int("Int"), 3)), Role::Opaque)], false, vec!["ptr-to-array"]),
+        f("arr2", int("Int"), RetKind::Scalar, vec![p("a", array(array(int("Int"), 3), 2), Role::Opaque)], false, vec!["array-of-array"]),
+        f("arrfp", int("Int"), RetKind::Scalar, vec![p("a", array(fnptr(false, int("Int"), vec![]), 3), Role::Opaque)], false, vec!["array-of-fnptr"]),
+        f("fpfp", int("Int"), RetKind::Scalar, vec![p("f", fnptr(false, fnptr(false, int("Int"), vec![(None, int("Int"))]), vec![(Some("k".into()), int("Char"))]), Role::Opaque)], false, vec!["fnptr-returning-fnptr"]),
+        f("vfp", int("Int"), RetKind::Scalar, vec![p("g", fnptr(true, int("Int"), vec![(None, ptr(false, cbase(true, Base::Int("Char".into()))))]), Role::Opaque)], false, vec!["variadic-fnptr"]),
+        f("cptr", int("Int"), RetKind::Scalar, vec![p("q", ptr(true, int("Int")), Role::InOut)], false, vec!["const-pointer-param"]),
+        f("boolfn", int("Bool"), RetKind::Scalar, vec![p("x", int("Bool"), Role::Val)], false, vec!["bool-without-stdbool"]),
+        f("match", int("Int"), RetKind::Scalar, vec![p("a", int("Int"), Role::Val)], false, vec!["keyword-name"]),
+        f("vs", int("Int"), RetKind::Scalar, vec![p("n", int("Int"), Role::Val)], true, vec![]),
+        f("ok1", int("Long"), RetKind::Scalar, vec![p("a", int("Int"), Role::Val), p("b", ptr(false, int("Int")), Role::InOut), Param { name: None, ty: int("Short"), role: Role::Val }], false, vec![]),
+        f("ok2", base(Base::Void), RetKind::Void, vec![p("a", array(cbase(true, Base::Int("Int".into())), 3), Role::Arr(3, true)), p("cb", fnptr(false, int("Int"), vec![(None, int("Int"))]), Role::Cb), p("s", base(Base::Struct("Pt".into())), Role::Agg)], false, vec![]),
+        f("ok3", ptr(false, cbase(true, Base::Int("Char".into()))), RetKind::PtrCell("char"), vec![], false, vec![]),
+    ];
+    let mut text = preamble(true, false, false);
+    for fu in &funcs {
+        text.push_str(&format!("static inline {} {{\n{}}}\n", prototype(fu), body(fu)));
+    }
+    Case {
+        id, headers: vec![(format!("c16_{id}_0.h"), text)], funcs, mode: Mode::Path, cpp: false, suffix: None, experimental: true,
+        stdbool: false, complex_h: false, pretty: false, expect_serialize_error: false, clean: false,
+    }
+}
+
 pub fn gen_case(r: &mut Rng, id: usize, thorough: bool) -> Case {
+    if id == 0 {
+        return witness_case(id);
+    }
     let cpp = r.chance(1, 8);
     let clean = cpp || r.chance(6, 10);
     let mode = if cpp {
